@@ -345,6 +345,7 @@ class SensorRunner(Base):
         self.proc = proc = lib.PartProcessor('M', [src], ln['ct'])
         lib.Sink('K', [proc], ln.get('sink_ct', 0))
         self.sensors = []
+        self.sensor_probes = []    # the probe objects as handed to the constructor (keys of sensor.data)
         self.cb_log = []         # (sensor idx, cb idx, sensor arg ok, time, values copy, harness read)
         self.cms_log = []
         cms_list = []
@@ -379,6 +380,7 @@ class SensorRunner(Base):
                 s = lib.OutputPartSensor(proc, probes, sc['n'], name=f'sensor{si}', **kw)
             self.sidx_of[id(s)] = si
             self.sensors.append(s)
+            self.sensor_probes.append(probes)
             for ci in range(sc.get('callbacks', 1)):
                 s.add_on_sense_callback(self.mk_cb(si, ci, sc))
             for ci, times in sc.get('cms', []):
@@ -500,7 +502,7 @@ class SensorRunner(Base):
             if cap is not None and count > cap:
                 self.bump('trimmed')
             if ncb:
-                for pi, p in enumerate(s.probes):
+                for pi, p in enumerate(self.sensor_probes[si]):
                     want = [c[5][pi] for c in meas][-keep:] if keep else []
                     if s.data[p] != want:
                         self.fail('C19.b', f'sensor {si}: stored series of probe {pi} is {s.data[p][-5:]}, the probed '
